@@ -7,4 +7,7 @@ namespace ZygoVerif.Pratt
 /-- The table before fix C06-01: LeftBindingPower had no arm for *SexpChar / *SexpUint64. -/
 def Table.legacy01 : Table := { Table.generated with lbpChar := none, lbpUint := none }
 
+/-- The table before fix C06-02: LeftBindingPower had no arm for nil (*SexpSentinel). -/
+def Table.legacy02 : Table := { Table.generated with lbpNull := none }
+
 end ZygoVerif.Pratt
